@@ -399,9 +399,85 @@ class Interp:
             v = self.deref_arg(args[0])
             if isinstance(v, list):
                 return len(v)
-        if re.search(r"core::num::<impl u\d+>::(wrapping_sub|wrapping_add|saturating_sub)$", c):
+        if re.search(r"core::option::Option::<T>::(unwrap_or|unwrap_or_default|unwrap|expect|is_some|is_none)$", c):
+            o = self.deref_arg(args[0])
+            if isinstance(o, dict) and o.get("__adt") == "core::option::Option":
+                op = c.rsplit("::", 1)[-1]
+                is_some = o.get("__var") == "Some"
+                val = o.get(0, o.get("0"))
+                if op in ("is_some", "is_none"):
+                    return 1 if is_some == (op == "is_some") else 0
+                if op == "unwrap_or":
+                    return val if is_some else args[1]
+                if op == "unwrap_or_default":
+                    return val if is_some else 0
+                if not is_some:
+                    raise Panic("unwrap on None")
+                return val
+        m_ = re.search(r"core::num::<impl (u\d+|usize)>::(wrapping_shl|wrapping_shr|wrapping_mul|saturating_add|saturating_mul|checked_add|checked_sub|checked_mul|checked_shl|checked_shr|"
+                       r"leading_zeros|trailing_zeros|count_ones|count_zeros|pow|rotate_left|rotate_right|swap_bytes|abs_diff|min|max|is_power_of_two|next_power_of_two)$", c)
+        if m_ and all(isinstance(self.deref_arg(x), int) for x in args):
+            ty, op = m_.group(1), m_.group(2)
+            bits = INT_BITS.get(ty, 64)
+            mask = (1 << bits) - 1
+            v = [self.deref_arg(x) for x in args]
+            a = v[0]
+            b = v[1] if len(v) > 1 else None
+            opt = lambda ok, val: {"__adt": "core::option::Option", "__var": "Some", 0: val, "0": val} if ok else {"__adt": "core::option::Option", "__var": "None"}
+            if op == "wrapping_shl":
+                return (a << (b & (bits - 1))) & mask
+            if op == "wrapping_shr":
+                return a >> (b & (bits - 1))
+            if op == "wrapping_mul":
+                return (a * b) & mask
+            if op == "saturating_add":
+                return min(a + b, mask)
+            if op == "saturating_mul":
+                return min(a * b, mask)
+            if op == "checked_add":
+                return opt(a + b <= mask, a + b)
+            if op == "checked_sub":
+                return opt(a >= b, a - b)
+            if op == "checked_mul":
+                return opt(a * b <= mask, a * b)
+            if op == "checked_shl":
+                return opt(b < bits, (a << (b & (bits - 1))) & mask)
+            if op == "checked_shr":
+                return opt(b < bits, a >> (b & (bits - 1)))
+            if op == "leading_zeros":
+                return bits - a.bit_length()
+            if op == "trailing_zeros":
+                return bits if a == 0 else (a & -a).bit_length() - 1
+            if op == "count_ones":
+                return bin(a).count("1")
+            if op == "count_zeros":
+                return bits - bin(a).count("1")
+            if op == "pow":
+                r = a ** b
+                if r > mask:
+                    raise Panic("pow overflows")
+                return r
+            if op == "rotate_left":
+                b %= bits
+                return ((a << b) | (a >> (bits - b))) & mask if b else a
+            if op == "rotate_right":
+                b %= bits
+                return ((a >> b) | (a << (bits - b))) & mask if b else a
+            if op == "swap_bytes":
+                return int.from_bytes(a.to_bytes(bits // 8, "big"), "little")
+            if op == "abs_diff":
+                return abs(a - b)
+            if op == "min":
+                return min(a, b)
+            if op == "max":
+                return max(a, b)
+            if op == "is_power_of_two":
+                return 1 if a and not (a & (a - 1)) else 0
+            if op == "next_power_of_two":
+                return 1 if a <= 1 else 1 << (a - 1).bit_length()
+        if re.search(r"core::num::<impl (u\d+|usize)>::(wrapping_sub|wrapping_add|saturating_sub)$", c):
             a, b = args
-            ty = re.search(r"impl (u\d+)", c).group(1)
+            ty = re.search(r"impl (u\d+|usize)", c).group(1)
             op = c.rsplit("::", 1)[-1]
             if op == "wrapping_sub":
                 return wrap(a - b, ty)
